@@ -78,6 +78,8 @@ STATEMENT_STATUS: Dict[str, str] = {
     "C08_anno_exact": "proved (every line of the result has EXACTLY the specified members: glyphs in content order, "
                       "a space iff the documented predicate holds between consecutive glyphs, one final line break); "
                       "checked on the implementation's lines by op `annospec`",
+    "C08_detect_vertical": "proved (detect_vertical off: every line, every box and every group at any depth is of the "
+                           "horizontal / LRTB class); oracle: vertical-without-detect_vertical, box-orientation-uniform, group class",
     "C08_no_glyphs": "proved (a page without glyphs is returned unchanged, no groups)",
     "C08_single_root": "proved (group_textboxes ends with at most one object in the plane, for every heap comparison)",
 }
